@@ -214,7 +214,11 @@ class Interp:
                 v = self.ev(c["init"], env)
                 e2 = dict(env)
                 if self.match_pat(c["pat"], v, e2):
-                    return self.block(e["then"], e2)
+                    r = self.block(e["then"], e2)
+                    for kk in env:
+                        if kk in e2:
+                            env[kk] = e2[kk]
+                    return r
                 if "else" in e:
                     return self.block(e["else"], env)
                 return ("t", ())
@@ -239,7 +243,10 @@ class Interp:
                             continue
                     self.on_arm(e, arm)
                     r = self.ev(arm["body"], e2)
-                    # propagate rebinding of outer locals (none in the analysed fragment)
+                    # assignments to locals of the enclosing scope are visible after the match
+                    for kk in env:
+                        if kk in e2:
+                            env[kk] = e2[kk]
                     return r
             raise H.Unsupported("no arm matches")
         if k == "loop":
@@ -307,7 +314,8 @@ class Interp:
         raise H.Unsupported("index %r[%r]" % (base, idx))
 
     def ext_call(self, fp, args):
-        raise H.Unsupported("external function %s" % fp)
+        # an external constructor-like call (RGB8::new, ...): kept as an opaque term
+        return ("ext", fp, tuple(args))
 
     def ext_method(self, name, callee, recv, args):
         if callee.startswith("core::slice::") and isinstance(recv, tuple) and recv[0] == "s":
